@@ -113,6 +113,15 @@ class C16(Prop):
                     case['modular'] = {'top': lang.to_jsonable(top), 'defs': [[nm, lang.to_jsonable(g)] for nm, g in defs],
                                        'consts': [], 'style': rng.choice(['one-text', 'subspecs'])}
             return case
+        if rng.random() < 0.12:
+            # an interface-aware semantics with a random io assignment (same for the trace and its extension);
+            # small-integer data so that predicates sit on their thresholds
+            from rtverif.props.c06 import SEMS
+            case['ia'] = [rng.choice(SEMS[1:]), dict((k, rng.choice(['input', 'output'])) for k in names)]
+            cs = sorted(set(g[2] for g in lang.walk(f) if g[0] == 'const'))[:3] or [1.0]
+            alpha = sorted(set(cs + [c + 1 for c in cs] + [c - 1 for c in cs]))      # on and around the thresholds
+            case['data'] = dict((k, [rng.choice(alpha) for _ in range(n1 + ext)]) for k in names)
+            return case
         sugar = 'unless' in lang.ops_of(f)             # expanded by the parser into two operators sharing the bounds
         if rng.random() < (0.6 if sugar else 0.3):
             # a sampling period other than 1 s, bounds written in its unit; and possibly a neighbour: another
@@ -138,15 +147,22 @@ class C16(Prop):
             return v
         h = lang.horizon(f)
         text = lang.to_text(f)
+        hook = None
+        if case.get('ia'):
+            from rtverif.props.c06 import hook_discrete
+            hook = hook_discrete(*case['ia'])
         try:
-            e1 = ref.evaluate(f, data, n1)
-            e2 = ref.evaluate(f, data, n2)
+            e1 = ref.evaluate(f, data, n1, pred_hook=hook)
+            e2 = ref.evaluate(f, data, n2, pred_hook=hook)
         except ref.Undefined:
             v.skip = 'reference undefined (domain error)'
             return v
         settled = max(0, n1 - h)
         rel = rel_for(f)
         sd, times = None, None
+        if case.get('ia'):
+            sd = {'semantics': case['ia'][0], 'io': case['ia'][1]}
+            v.info['class:interface-aware'] = 1
         if case.get('period'):
             from fractions import Fraction as Fr
             from rtverif.props.c08 import U, dur_in
